@@ -30,30 +30,53 @@ RULE = (
     "given the OCS frames and scale_uniform flag of the real OCSTransform; X4 InsertCoordinateSystem.transform (scales, sign decision, "
     "InsertTransformationError, insert, rotation as direction) and Insert.matrix44 with a block base point; X5 recursive expansion of clean "
     "nested block references of POINTs (depth <= 4) vs product of the real per-level matrix44s, and level-by-level expansion = path product; "
-    "X6 upright() attribute flips.  non-trivial = non-default frame / non-similar or mirrored matrix / nesting depth > 1; distinct by hash of "
-    "the request.  oracle: own WCS parametrisation before/after on the real code, see module docstring; a failing input is keyed "
-    "<cause>/<api>/<type>/<aspect>/<matrix class>/<hash>, cause derived from the INPUT and the failing aspect (e.g. plane-shear, "
-    "neg-thickness: the constellations of the 13 defects this check found, all fixed in /repo now) so that a regression is named."
+    "X6 upright() attribute flips; X7 pending matrix of ACIS entities (8 types) after histories of 0..4 transform()/inplace() calls and copy() "
+    "vs the fold of the regenerated add_matrix; X8 HATCH/MPOLYGON.transform (new elevation, every boundary point of polyline/line/arc/"
+    "spline/ellipse-centre, bulges, arc radius and angle directions, spline tangents) vs Model Hatch.transform for uniform and non-uniform "
+    "matrices (paths needing the arc->ellipse conversion are skipped and counted); X9 Text/Attdef.transform (both branches: insert, align, "
+    "rotation, oblique as (cos, sin), height, width, thickness) and MText.transform (insert, direction, extrusion, char height, width); "
+    "X10 rytz_axis_construction on conjugate half-diameters in the plane / in space and on arbitrary pairs, and minor_axis, vs the regenerated kernels; "
+    "X11 MLine.transform scale factor + vertices; X12 Dimension.transform on arbitrary attribute subsets; X13 2-D POLYLINE (own z / elevation, widths, bulges, error); X14 ConstructionEllipse.transform axes (both branches, exchange); X15 HATCH EllipseEdge / converted ArcEdge centre, major axis, ratio; X16 MINSERT row / column spacing.  non-trivial = non-default frame / non-similar or mirrored matrix / nesting depth > 1 / "
+    "history length > 1; distinct by hash of the request.  oracle: own WCS parametrisation before/after on the real code, see module "
+    "docstring (O1 single entity x matrix x API for 28 generators incl. 8 ACIS types, O2 exact rational, O3 nested, O4 upright, O5 histories "
+    "of 2-3 matrices x every generator x transform/inplace/copies + commit of pending ACIS transformations); a failing input is keyed "
+    "<cause>/<api>/<type>/<aspect>/<matrix class>/<hash> (history/<api>/<type>/<aspect>/<n>/<hash> for O5), cause derived from the INPUT "
+    "and the failing aspect (e.g. plane-shear, neg-thickness, mline-scale-factor: the constellations of the 16 defects this check found, all "
+    "fixed in /repo now) so that a regression is named."
 )
 TRUSTED_BASE = [
-    "py2lean translator + the two AST splits (transform_extrusion after OCS(), InsertCoordinateSystem.transform before from_ocs) in this file",
+    "py2lean translator + the AST splits / wrappers in this file: transform_extrusion after OCS(), InsertCoordinateSystem.transform before "
+    "from_ocs, c12_temp_add (TemporaryTransformation.add_matrix; matrix product kept as opaque M44.mul, result type patched), c12_line_edge "
+    "(LineEdge.transform), c12_mline_scale (statements of MLine.transform moved into a function), ArithmeticError -> ValueError in rytz",
+    "the AST extraction of the elevation flow through DXFPolygon / BoundaryPaths / PolylinePath / EdgePath / *Edge.transform (hatch_defs): "
+    "a table of recognised statement shapes, every other shape is refused",
     "the harness' own geometry (arbitrary axis algorithm, Rodrigues rotation, bulge -> arc, ellipse parametrisation, curve inclusion test)",
     "OCS.__init__ (frames are taken from the real OCS objects; their correctness is property C11)",
     "sqrtA of the Lean driver (exact on rational squares, else relative error < 2^-100); theorems quantify over exact roots",
+    "dev tool that computed the polynomial cofactors of rytz_uv (not trusted: `linear_combination` re-checks them with `ring`)",
 ]
 ASSUMPTIONS = [
     "finite doubles, invertible matrices; float rounding bounded by the stated tolerances, not proved",
     "extrusions within 1e-9 of the 1/64 threshold and matrices within the decision bands of the uniform / orthogonality / span tests are "
     "regenerated (counted in the distribution)",
     "HATCH ellipse edge angles are read as ezdxf reads them (real angles, parameter = atan2(sin a / ratio, cos a))",
+    "np.matmul of the pure-Python Matrix44 is the textbook product M44.mul (tied by property C11)",
+    "theorems about new OCS frames assume what OCS.__init__ establishes (orthonormal, right-handed, z = given extrusion): property C11",
 ]
 OPEN = [
-    "insert_transform_law (general): proved as the representation theorem insert_matrix_law; that the scale extraction of the "
-    "regenerated InsertCoordinateSystem kernel satisfies its hypotheses is proved on examples (unrotated, rotated 90 degrees, rotated + "
-    "mirrored with base point) and otherwise tied by correspondence X4 only (the generated term is too large for case analysis)",
     "arc span test: modelled by a trigonometry-free predicate (|sin| <= 1e-7) instead of isclose(span, rel_tol=1e-8); semicircle probe "
     "direction differs (1 rad vs rational); both corresponded outside the stated bands",
-    "not proved: rytz ellipse axis reconstruction, text / MTEXT orientation, DIMENSION / MLINE / HATCH edge internals, atan2 / isclose numerics",
+    "ELLIPSE / arc->ellipse fallback / HATCH ellipse edges: the axes part of ConstructionEllipse.transform is modelled (X14/X15) and "
+    "chained to the kernel theorems by ellipse_transform_cases (+ ellipse_swap_law for the exchange); NOT proved: an exact statement for "
+    "images that are orthogonal only within 1e-6 (the shortcut is exact only for cos = 0), and the start/end parameter adjustment (atan2) "
+    "of open elliptic arcs: oracle only (O1/O3/O5)",
+    "HATCH: the polyline-with-bulge -> arc-edge conversion before a non-uniform scaling (bulge_to_arc, trigonometry) and ellipse edge "
+    "parameters are outside the model (Hatch.transform = none there): oracle only; pattern scaling not covered",
+    "MTEXT columns and inline height commands, ATTRIB attached to INSERT (transformed with the block reference) not modelled",
+    "MLINE: element lines follow similarities only (one scalar scale factor): non-uniform scaling moves the vertices, the line spacing is "
+    "kept (documented in the source); vertex directions / miter are regenerated by update_geometry, not modelled",
+    "not proved: DIMENSION block content, SHAPE, POLYMESH / POLYFACE control flow, explode(), multi_insert() grid expansion: oracle only; "
+    "atan2 / isclose numerics",
 ]
 
 # ================================================================================================ own linear algebra
@@ -466,6 +489,16 @@ def fmt(v):
 # ================================================================================================ entity recipes
 # An entity recipe is a JSON dict {"t": dxftype, "a": dxfattribs, ...payload}; build(layout, recipe) creates the entity
 # through the public factory API.  Coordinates are short dyadics.
+# entities without transformable geometry of their own: transform() accumulates a pending ("temporary") matrix that becomes a
+# block reference at export / by ezdxf.transform.apply_temporary_transformations()
+ACIS_TYPES = ("BODY", "3DSOLID", "REGION", "SURFACE", "EXTRUDEDSURFACE", "LOFTEDSURFACE", "REVOLVEDSURFACE", "SWEPTSURFACE")
+
+
+def from16(vals):
+    v = [float(x) for x in vals]
+    return ((tuple(v[0:3]), tuple(v[4:7]), tuple(v[8:11])), tuple(v[12:15]))
+
+
 def _attr(a):
     return {k: (tuple(v) if isinstance(v, list) else v) for k, v in a.items()}
 
@@ -479,6 +512,8 @@ def build(layout, rc):
             e.control_points = [tuple(p) for p in rc["cps"]]
             e.knots = list(rc["knots"])
         return e
+    if t in ACIS_TYPES:
+        return layout.new_entity(t, a)
     if t == "LWPOLYLINE":
         return layout.add_lwpolyline([tuple(p) for p in rc["pts"]], format="xyseb", close=rc.get("closed", False), dxfattribs=a)
     if t == "POLYLINE2D":
@@ -521,8 +556,13 @@ def build(layout, rc):
                     elif ed[0] == "ellipse":
                         ep.add_ellipse(tuple(ed[1]), tuple(ed[2]), ed[3], ed[4], ed[5], ccw=bool(ed[6]))
                     elif ed[0] == "spline":
-                        ep.add_spline(control_points=[tuple(v) for v in ed[1]], degree=3,
-                                      knot_values=[0, 0, 0, 0] + list(range(1, len(ed[1]) - 3)) + [len(ed[1]) - 3] * 4)
+                        sp = ep.add_spline(control_points=[tuple(v) for v in ed[1]], degree=3,
+                                           knot_values=[0, 0, 0, 0] + list(range(1, len(ed[1]) - 3)) + [len(ed[1]) - 3] * 4)
+                        from ezdxf.math import Vec2  # the attributes are annotated as Vec2 / list[Vec2]
+                        if len(ed) > 2 and ed[2]:
+                            sp.start_tangent, sp.end_tangent = Vec2(ed[2][0]), Vec2(ed[2][1])
+                        if len(ed) > 3 and ed[3]:
+                            sp.fit_points = Vec2.list(ed[3])
         return e
     if t == "INSERT":
         e = layout.add_blockref(rc["name"], tuple(rc["insert"]), dxfattribs=a)
@@ -588,6 +628,13 @@ def _text_prims(e, out, prefix=""):
     up = vadd(vmul(fr[0], -math.sin(rot)), vmul(fr[1], math.cos(rot)))
     out.append(("D", prefix + "baseline", base))
     out.append(("D", prefix + "sim:up", up))
+    # the glyph frame: a point (x, y) of the text (x along the baseline in units of height * width factor, y in units of the
+    # height) sits at insert + x * h * w * d + y * h * (u + tan(oblique) * d): an affine frame, so its image under EVERY matrix that
+    # keeps the text plane a plane is representable (new height, width factor, oblique) and must be what the entity stores
+    h_, w_ = float(d.height), float(d.get("width", 1.0))
+    tan_o = math.tan(math.radians(float(d.get("oblique", 0.0))))
+    out.append(("P", prefix + "frame_x", vadd(to_wcs(fr, ins), vmul(base, h_ * w_))))
+    out.append(("P", prefix + "frame_y", vadd(to_wcs(fr, ins), vmul(vadd(up, vmul(base, tan_o)), h_))))
     out.append(("L", prefix + "sim:height", float(d.height)))
     out.append(("N", prefix + "sim:width", float(d.get("width", 1.0))))
     out.append(("N", prefix + "sim:oblique", float(d.get("oblique", 0.0))))
@@ -714,6 +761,13 @@ def geom(e, base=(0.0, 0.0, 0.0)):
                     elif kind == "SplineEdge":
                         for k_, q in enumerate(ed.control_points):
                             out.append(("P", lab + f"cp{k_}", to_wcs(fr, (q[0], q[1], z))))
+                        for k_, q in enumerate(ed.fit_points):
+                            out.append(("P", lab + f"fit{k_}", to_wcs(fr, (q[0], q[1], z))))
+                        # tangents are directions in the OCS plane (no elevation)
+                        if ed.start_tangent is not None:
+                            out.append(("V", lab + "start_tangent", to_wcs(fr, (ed.start_tangent[0], ed.start_tangent[1], 0.0))))
+                        if ed.end_tangent is not None:
+                            out.append(("V", lab + "end_tangent", to_wcs(fr, (ed.end_tangent[0], ed.end_tangent[1], 0.0))))
     elif t in ("TEXT", "ATTRIB", "ATTDEF"):
         _text_prims(e, out)
     elif t == "MTEXT":
@@ -751,6 +805,14 @@ def geom(e, base=(0.0, 0.0, 0.0)):
     elif t == "MLINE":
         for i, v in enumerate(e.vertices):
             out.append(("P", f"v{i}", v3(v.location)))
+        # the rendered element lines (offset by scale_factor x style offsets): they follow every similarity; a non-uniform
+        # scaling cannot be represented by the single scale factor (documented), so these are `sim:` aspects
+        k = 0
+        for x in e.virtual_entities():
+            if x.dxftype() == "LINE":
+                out.append(("P", f"sim:el{k}s", v3(x.dxf.start)))
+                out.append(("P", f"sim:el{k}e", v3(x.dxf.end)))
+                k += 1
     elif t == "MESH":
         for i, p in enumerate(e.vertices):
             out.append(("P", f"v{i}", v3(p)))
@@ -769,6 +831,11 @@ def geom(e, base=(0.0, 0.0, 0.0)):
         out += [("P", "insert", v3(d.insert)), ("V", "x_axis_vector", v3(d.x_axis_vector))]
     elif t == "LIGHT":
         out += [("P", "location", v3(d.location)), ("P", "target", v3(d.target))]
+    elif t in ACIS_TYPES:
+        # the world placement of the (opaque) ACIS geometry is the pending matrix: local frame -> WCS
+        tm = e.temporary_transformation().get_matrix()
+        A, org = IDENT if tm is None else from16(tm)
+        out += [("P", "origin", org), ("V", "ex", A[0]), ("V", "ey", A[1]), ("V", "ez", A[2])]
     elif t == "DIMENSION":
         fr = _frame(e)
         for name in ("defpoint", "defpoint2", "defpoint3"):
@@ -977,7 +1044,11 @@ class EG:
                         edges.append(["ellipse", self.p2(), r.choice([[2.0, 0.0], [1.5, 2.0], [0.0, 3.0]]), r.choice([0.5, 0.25]), sa,
                                       sa + r.choice([45.0, 90.0, 180.0, 270.0, 360.0]), r.random() < 0.7])
                     else:
-                        edges.append(["spline", [self.p2() for _ in range(r.randint(4, 6))]])
+                        ed = ["spline", [self.p2() for _ in range(r.randint(4, 6))]]
+                        if r.random() < 0.5:
+                            ed.append([self.p2(), self.p2()] if r.random() < 0.7 else None)
+                            ed.append([self.p2() for _ in range(3)] if r.random() < 0.5 else None)
+                        edges.append(ed)
                 paths.append({"k": "edge", "edges": edges})
         return {"t": t, "a": a, "paths": paths}
 
@@ -1056,7 +1127,12 @@ class EG:
         for _ in range(self.r.randint(2, 4)):  # strictly increasing x: no 180 degree turns (MLINE cannot mitre them)
             x += self.r.choice([0.5, 1.0, 3.25])
             pts.append([x, self.c(), z])
-        return {"t": "MLINE", "a": {}, "pts": pts}
+        a = {}
+        if self.r.random() < 0.6:
+            a["scale_factor"] = self.r.choice([1.0, 1.5, 0.5, 2.0])
+        if self.r.random() < 0.5:
+            a["justification"] = self.r.choice([0, 1, 2])
+        return {"t": "MLINE", "a": a, "pts": pts}
 
     def mesh(self):
         return {"t": "MESH", "a": {}, "pts": [self.p3() for _ in range(5)], "faces": [[0, 1, 2], [2, 3, 4]]}
@@ -1081,6 +1157,9 @@ class EG:
 
     def light(self):
         return {"t": "LIGHT", "a": {"location": self.p3(), "target": self.p3(), "name": "L"}}
+
+    def acis(self):
+        return {"t": self.r.choice(ACIS_TYPES), "a": {}}
 
     def dimension(self):
         return {"t": "DIMENSION", "a": {}, "base": self.p2() + [0.0], "p1": self.p2() + [0.0], "p2": self.p2() + [0.0],
@@ -1240,12 +1319,16 @@ def cause_of(rc, cl, aspect, exc=None):
         return "insert-rotated-axes"
     if t == "MLINE" and not cl.get("sim3") and aspect == "geometry":
         return "mline-nonuniform"
+    if t == "MLINE" and cl.get("sim3") and aspect == "geometry":
+        return "mline-scale-factor"
     if t == "DIMENSION" and exc == "InsertTransformationError":
         return "dimension-block-content"
     if t in ("HATCH", "MPOLYGON") and cl.get("plane") == "nonuni" and aspect == "geometry":
         return "hatch-ellipse-edge"
     if t == "SHAPE" and exc == "DXFAttributeError":
         return "shape-attr"
+    if t in ("TEXT", "ATTDEF", "ATTRIB") and aspect == "geometry" and not cl.get("sim3") and a.get("oblique"):
+        return "text-oblique-height"
     if cl.get("plane") == "shear" and (accepts(rc) == "plane" or t in ("HATCH", "MPOLYGON", "TEXT", "ATTDEF", "MTEXT", "SHAPE")):
         return "plane-shear"
     return "general"
@@ -1310,6 +1393,10 @@ def run_entity_case(world, rc, mr, api, fails, stats):
             d = cmp_pieces(want_pieces, pieces(got)) if use_pieces else cmp_prims(want_full, select(got, cl))
             if d:
                 return fail("geometry", d)
+            if use_pieces:  # direction-valued data of boundary paths (spline edge tangents) is not part of the curve pieces
+                d = cmp_prims([p for p in want_full if p[0] == "V"], [p for p in select(got, cl) if p[0] == "V"])
+                if d:
+                    return fail("geometry", d)
         else:
             if err is None:
                 return fail("no-error", f"accepted a matrix the {rc['t']} cannot represent (expected {doc_err}); result " +
@@ -1349,6 +1436,8 @@ def run_entity_case(world, rc, mr, api, fails, stats):
         d = cmp_prims(want_full, select(got, cl))
     else:
         d = cmp_pieces(want_pieces, pieces(_relabel(got)), ordered=(len(ents) == 1))
+        if not d and use_pieces and len(ents) == 1:
+            d = cmp_prims([p for p in want_full if p[0] == "V"], [p for p in select(got, cl) if p[0] == "V"])
     if d:
         fail("geometry", d)
 
@@ -1594,6 +1683,110 @@ def run_upright_case(world, rc, fails, stats):
         return fail("extrusion-changed", f"extrusion {fmt(n)} -> {fmt(n2)} although nothing had to be flipped")
 
 
+# ================================================================================================ oracle: histories
+def _gen_history(mg, rc, api):
+    """2..3 matrices each of which the entity (as it is at that moment) can represent"""
+    r = mg.r
+    acc = accepts(rc)
+    n = r.choice([2, 2, 3])
+    out = []
+    for _ in range(n):
+        if rc["t"] in ACIS_TYPES:  # pending matrix -> block reference: every matrix accumulates; similarities and axis scalings
+            out.append(mg.similarity() if r.random() < 0.8 else [mg.Sn()])
+        elif acc == "affine" or (api != "transform" and acc == "plane"):
+            out.append(mg.similarity() if r.random() < 0.5 else mg.affine())
+        else:
+            out.append(mg.similarity(mirror=r.choice([None, None, True])))
+    return out
+
+
+def run_history_case(world, rc, mrs, api, fails, stats):
+    """one entity x a HISTORY of matrices applied one after the other by one API: the final geometry must be
+    m_n(...m_2(m_1(geometry))...); ACIS entities additionally: committing the pending transformation
+    (apply_temporary_transformations, what Drawing.write() triggers) yields a block reference with that placement"""
+    from ezdxf.math import Matrix44, NonUniformScalingError, InsertTransformationError
+    import ezdxf.transform as xt
+
+    lay = world.layout()
+    e = build(lay, rc)
+    t = rc["t"]
+    base = world.base_of(rc["name"]) if t == "INSERT" else (0.0, 0.0, 0.0)
+    ms = [build_matrix(mr) for mr in mrs]
+    total = IDENT
+    for m in ms:
+        total = m_mul(total, m)
+    n = v3(e.dxf.extrusion) if e.dxf.hasattr("extrusion") or e.dxf.is_supported("extrusion") else (0.0, 0.0, 1.0)
+    cl = classify(total, n)
+    steps_sim = all(classify(m)["sim3"] for m in ms)
+    if abs(cl["det"]) < 1e-9 or any(abs(m_det(m)) < 1e-9 for m in ms) or (not steps_sim and cl.get("plane") == "band"):
+        stats["band"] = stats.get("band", 0) + 1
+        return
+    if not steps_sim:  # lengths / thickness are only defined through similarities
+        cl = dict(cl, sim3=False, zperp=False)
+    rep = {"op": "history", "api": api, "entity": rc, "matrices": mrs}
+    key = f"{api}:{t}:{len(ms)}:{'sim' if steps_sim else 'aff'}"
+    stats[key] = stats.get(key, 0) + 1
+
+    def fail(aspect, what):
+        fails.append((f"history/{api}/{t}/{aspect}/{len(ms)}/{_hash(rep)}", f"{t} {api} x{len(ms)} {json.dumps(mrs)}: {what}", rep))
+
+    before = geom(e, base)
+    want_full = [map_prim(p, total, cl["k"]) for p in select(before, cl)]
+    want_pieces = [map_piece(p, total) for p in pieces(before)]
+    ents = [e]
+    try:
+        for m in ms:
+            M = Matrix44(mat16(m))
+            if api == "transform":
+                for x in ents:
+                    x.transform(M)
+            elif api == "inplace":
+                log = xt.inplace(list(lay), M)
+                if len(log):
+                    return fail("raises", f"log {[str(x.error.name) for x in log]}")
+                ents = list(lay)
+            else:
+                log, ents = xt.copies(ents, M)
+                if len(log):
+                    return fail("raises", f"log {[str(x.error.name) for x in log]}")
+    except (NonUniformScalingError, InsertTransformationError) as x:
+        return fail("raises", f"raised {type(x).__name__} although every step is representable")
+    except Exception as x:  # noqa
+        return fail("raises", f"raised {type(x).__name__}: {x}")
+    got = []
+    for x in ents:
+        got += geom(x, base)
+    if len(ents) == 1 and ents[0].dxftype() == e.dxftype() and t not in ("HATCH", "MPOLYGON"):
+        d = cmp_prims(want_full, select(got, cl), tol=1e-8)
+    else:
+        d = cmp_pieces(want_pieces, pieces(_relabel(got)), tol=1e-8, ordered=(len(ents) == 1))
+    if d:
+        return fail("geometry", d)
+    if t in ACIS_TYPES and api != "copies":
+        # commit: the entity moves into an anonymous block, referenced by an INSERT carrying the accumulated matrix
+        x = ents[0]
+        rows = [m_dir(total, a) for a in IDENT[0]]
+        orth = all(abs(vdot(rows[i], rows[j])) <= 1e-9 * vlen(rows[i]) * vlen(rows[j]) for i, j in ((0, 1), (0, 2), (1, 2)))
+        try:
+            xt.apply_temporary_transformations([x])
+        except Exception as ex:  # noqa
+            return fail("commit-raises", f"apply_temporary_transformations raised {type(ex).__name__}: {ex}")
+        refs = [y for y in lay if y.dxftype() == "INSERT"]
+        if not orth:
+            if refs or x.temporary_transformation().get_matrix() is None:
+                return fail("commit", "a matrix that no block reference can represent was committed")
+            return
+        if len(refs) != 1 or x.temporary_transformation().get_matrix() is not None:
+            return fail("commit", f"{len(refs)} block references after the commit, pending matrix "
+                        f"{'kept' if x.temporary_transformation().get_matrix() is not None else 'cleared'}")
+        blk = refs[0].block()
+        if blk is None or x not in list(blk):
+            return fail("commit", "the entity is not in the referenced block")
+        d = cmp_prims([p for p in want_full if p[0] in "PV"], geom(refs[0]), tol=1e-8)
+        if d:
+            return fail("commit-geometry", d)
+
+
 # ================================================================================================ corpus of fixed cases
 def corpus_nested():
     line = {"t": "LINE", "a": {"start": [0.0, 0.0, 0.0], "end": [1.0, 0.0, 0.0]}}
@@ -1675,7 +1868,7 @@ def dyadic_matrix(rng):
 # ================================================================================================ oracle entry
 ENTITY_GENS = ["line", "point", "circle", "arc", "ellipse", "lwpolyline", "polyline2d", "polyline3d", "polymesh", "polyface", "spline", "hatch",
                "solid", "face3d", "text", "mtext", "insert", "leader", "mline", "mesh", "image", "xline", "helix", "shape", "tolerance", "light",
-               "dimension"]
+               "dimension", "acis"]
 EXACT_GENS = ["line", "point", "face3d", "mesh", "spline", "polyline3d", "polymesh", "leader", "xline", "image", "light"]
 
 
@@ -1729,6 +1922,8 @@ def _report(ctx, fails, stream):
 
 
 def oracle(ctx):
+    import logging
+    logging.getLogger("ezdxf").setLevel(logging.ERROR)  # "cannot apply invalid transformation" is an expected outcome in O5
     fails, stats = [], {}
     # ---- O1 single entities x matrices x APIs
     rng = ctx.rng("entities")
@@ -1801,6 +1996,24 @@ def oracle(ctx):
     for k, v in sorted(stats.items()):
         ctx.hist("O4 upright", k, v)
     _report(ctx, fails, "O4 upright")
+    # ---- O5 histories: several transformations of one entity
+    fails, stats = [], {}
+    rng = ctx.rng("history")
+    eg, mg = EG(rng), MG(rng)
+    world = World()
+    O5 = "O5 histories of transformations"
+    for name in ENTITY_GENS + ["acis", "acis"]:
+        for _ in range(ctx.n(25, 200)):
+            rc = _gen_entity(eg, name)
+            for api in ("transform", "inplace", "copies"):
+                mrs = _gen_history(mg, rc, api)
+                run_history_case(world, rc, mrs, api, fails, stats)
+                ctx.count(O5, (api, _hash(rc), _hash(mrs)), True, sample={"entity": json.dumps(rc)[:200], "matrices": json.dumps(mrs)[:300], "api": api})
+            if world.n > 4000:
+                world = World()
+    for k, v in sorted(stats.items()):
+        ctx.hist(O5, k, v)
+    _report(ctx, fails, O5)
 
 
 def replay(ctx, rep):
@@ -1814,6 +2027,8 @@ def replay(ctx, rep):
         run_nested_case(rep["doc"], fails, stats, rep.get("how", "virtual"))
     elif op == "upright":
         run_upright_case(World(), rep["entity"], fails, stats)
+    elif op == "history":
+        run_history_case(World(), rep["entity"], rep["matrices"], rep["api"], fails, stats)
     else:
         return False, f"unknown replay op {op!r}"
     if fails:
@@ -1934,11 +2149,365 @@ def kernel_defs(read):
     return [translate(prog, path, q, ps, lean_name=nm, max_paths=256) for nm, path, q, ps in ks]
 
 
+TEMP = "src/ezdxf/entities/temporary_transform.py"
+WRAP = "#c12-wrap"
+# `TemporaryTransformation.add_matrix` is translated through this wrapper appended to the module source (the constructor,
+# set_matrix, add_matrix and get_matrix are EXECUTED symbolically by py2lean, once for an empty state and once for a state
+# that holds a matrix); `@` / `*` of two matrices (NumPy in the pure-Python Matrix44) is kept as the opaque call M44.mul
+# (textbook product of Model/Rat3.lean, tied to Matrix44.__matmul__ by property C11), so the OPERAND ORDER is the code's.
+TEMP_WRAPPER = '''
+
+
+def c12_temp_add(stored, m):
+    t = TemporaryTransformation()
+    t.set_matrix(stored)
+    t.add_matrix(m)
+    return t.get_matrix()
+'''
+
+
+def temp_defs(read):
+    """[LeanDef] for `add_matrix` on an empty state (tempAddNone) and on a state holding a matrix (tempAddSome)"""
+    from translate.py2lean import Program, translate, Unsupported
+
+    def rd(rel):
+        return read(rel[: -len(WRAP)]) + TEMP_WRAPPER if rel.endswith(WRAP) else read(rel)
+
+    prog = Program(rd)
+    prog.link("ezdxf.math", KSRC)
+    opaque = {"Matrix44.__matmul__": "M44.mul", "Matrix44.__mul__": "M44.mul"}
+    d0 = translate(prog, TEMP + WRAP, "c12_temp_add", [("stored", ("const", None)), ("m", "m44")], lean_name="tempAddNone", opaque=opaque)
+    d1 = translate(prog, TEMP + WRAP, "c12_temp_add", [("stored", "m44"), ("m", "m44")], lean_name="tempAddSome", opaque=opaque)
+    # py2lean types opaque calls as numbers; the product of two matrices is a matrix: the declared result type is corrected
+    # mechanically (Lean re-checks it), any other shape of the translation is refused
+    if d1.ret_type != "Rat" or "M44.mul" not in d1.body or d1.raises or d0.ret_type != "M44":
+        raise Unsupported("TemporaryTransformation.add_matrix no longer multiplies the stored matrix with the new one: the model "
+                          "must be revisited; translation was:\n" + d0.text + d1.text)
+    d1.ret_type = "M44"
+    return [d0, d1]
+
+
+BPATH = "src/ezdxf/entities/boundary_paths.py"
+POLYGON = "src/ezdxf/entities/polygon.py"
+LINE_WRAPPER = '''
+
+
+def c12_line_edge(start, end_, ocs, elevation):
+    e = LineEdge()
+    e.start = start
+    e.end = end_
+    e.transform(ocs, elevation)
+    return (e.start, e.end)
+'''
+
+
+def hatch_defs(read):
+    """HATCH / MPOLYGON: (1) `LineEdge.transform` translated by py2lean through a wrapper; (2) the FLOW of the elevation through
+    DXFPolygon.transform -> BoundaryPaths.transform -> path.transform -> edge.transform and its use in every leaf statement,
+    extracted from the AST: each `hatch…` definition below is the expression the code hands on, as a function of the elevation
+    it received (`elevation`, or a constant such as the default 0 when the argument is not passed).  Any other shape is refused."""
+    import ast
+    from translate.py2lean import Program, translate, Unsupported
+
+    def rd(rel):
+        return read(rel[: -len(WRAP)]) + LINE_WRAPPER if rel.endswith(WRAP) else read(rel)
+
+    prog = Program(rd)
+    prog.link("ezdxf.math", KSRC + [TT])
+    prog.link("ezdxf.math.transformtools", [TT])
+    ocs = lambda: ("obj", "OCS", {"transform": "bool", "matrix": "m44"})  # noqa: E731
+    ot = ("ocs", ("obj", "OCSTransform", {"m": "m44", "old_ocs": ocs(), "new_ocs": ocs()}))
+    line = translate(prog, BPATH + WRAP, "c12_line_edge", [("start", "v2", "s"), ("end_", "v2", "e"), ot, ("elevation", "rat")],
+                     lean_name="hatchLineEdge")
+
+    bp, pg = ast.parse(read(BPATH)), ast.parse(read(POLYGON))
+
+    def method(tree, cls, name):
+        for c in tree.body:
+            if isinstance(c, ast.ClassDef) and c.name == cls:
+                for n in c.body:
+                    if isinstance(n, ast.FunctionDef) and n.name == name:
+                        return n
+        raise Unsupported(f"{cls}.{name} not found")
+
+    def lean_of(node, where):
+        if isinstance(node, ast.Name) and node.id == "elevation":
+            return "elevation"
+        if isinstance(node, ast.Constant) and isinstance(node.value, (int, float)) and float(node.value) == int(node.value):
+            return str(int(node.value))
+        raise Unsupported(f"{where}: elevation expression `{ast.unparse(node)}` is outside the modelled shapes")
+
+    def default_of(fn, arg):
+        names = [a.arg for a in fn.args.args]
+        ds = fn.args.defaults
+        i = names.index(arg) - (len(names) - len(ds))
+        if i < 0:
+            raise Unsupported(f"{fn.name}: `{arg}` has no default")
+        return ds[i]
+
+    def call_elev(fn, callee_text, callee_fn, where):
+        calls = [n for n in ast.walk(fn) if isinstance(n, ast.Call) and ast.unparse(n.func) == callee_text]
+        if len(calls) != 1:
+            raise Unsupported(f"{where}: expected exactly one call of {callee_text}")
+        c = calls[0]
+        for k in c.keywords:
+            if k.arg == "elevation":
+                return lean_of(k.value, where)
+        if len(c.args) >= 2:
+            return lean_of(c.args[1], where)
+        return lean_of(default_of(callee_fn, "elevation"), where)
+
+    poly_t = method(pg, "DXFPolygon", "transform")
+    paths_t = method(bp, "BoundaryPaths", "transform")
+    out = {}
+    out["hatchPathsElev"] = ("DXFPolygon.transform -> BoundaryPaths.transform", call_elev(poly_t, "self.paths.transform", paths_t, "DXFPolygon.transform"))
+    if out["hatchPathsElev"][1] == "elevation" and not any(
+            isinstance(n, ast.Assign) and ast.unparse(n) == "elevation = Vec3(dxf.elevation).z" for n in ast.walk(poly_t)):
+        raise Unsupported("DXFPolygon.transform: `elevation` is no longer Vec3(dxf.elevation).z")
+    news = [n for n in ast.walk(poly_t) if isinstance(n, ast.Assign) and ast.unparse(n.targets[0]) == "dxf.elevation"]
+    if len(news) != 1 or ast.unparse(news[0].value) != "ocs.transform_vertex(Vec3(0, 0, elevation)).replace(x=0.0, y=0.0)":
+        raise Unsupported("DXFPolygon.transform: the new elevation is no longer z of transform_vertex((0, 0, elevation))")
+    out["hatchNewElevationZ"] = ("DXFPolygon.transform: z of the point whose image gives the new elevation", "elevation")
+    out["hatchPathElev"] = ("BoundaryPaths.transform -> path.transform", call_elev(paths_t, "path.transform", method(bp, "PolylinePath", "transform"), "BoundaryPaths.transform"))
+    out["hatchEdgePathElev"] = ("EdgePath.transform -> edge.transform", call_elev(method(bp, "EdgePath", "transform"), "edge.transform", method(bp, "LineEdge", "transform"), "EdgePath.transform"))
+    # PolylinePath.transform: v = ocs.transform_vertex(Vec3(x, y, <e>)) ; yield v.x, v.y, bulge
+    pt = method(bp, "PolylinePath", "transform")
+    cs = [n for n in ast.walk(pt) if isinstance(n, ast.Call) and ast.unparse(n.func) == "ocs.transform_vertex"]
+    ys = [n for n in ast.walk(pt) if isinstance(n, ast.Yield)]
+    if (len(cs) != 1 or len(cs[0].args) != 1 or not isinstance(cs[0].args[0], ast.Call) or ast.unparse(cs[0].args[0].func) != "Vec3"
+            or [ast.unparse(a) for a in cs[0].args[0].args[:2]] != ["x", "y"] or len(cs[0].args[0].args) != 3
+            or len(ys) != 1 or ast.unparse(ys[0].value) != "(v.x, v.y, bulge)"):
+        raise Unsupported("PolylinePath.transform changed its shape")
+    out["hatchPolyVertexZ"] = ("PolylinePath.transform: z of the vertex handed to transform_vertex", lean_of(cs[0].args[0].args[2], "PolylinePath.transform"))
+    # ArcEdge.transform
+    at = method(bp, "ArcEdge", "transform")
+    a0 = [n for n in at.body if isinstance(n, ast.Assign)][:2]
+    if (len(a0) != 2 or ast.unparse(a0[0].targets[0]) != "self.center" or not isinstance(a0[0].value, ast.Call)
+            or ast.unparse(a0[0].value.func) != "ocs.transform_2d_vertex" or ast.unparse(a0[0].value.args[0]) != "self.center"
+            or ast.unparse(a0[1]) != "self.radius = ocs.transform_length(Vec3(self.radius, 0, 0))"):
+        raise Unsupported("ArcEdge.transform changed its shape")
+    out["hatchArcCenterElev"] = ("ArcEdge.transform: elevation of the centre", lean_of(a0[0].value.args[1], "ArcEdge.transform"))
+    # SplineEdge.transform
+    st = method(bp, "SplineEdge", "transform")
+    gens = [n for n in ast.walk(st) if isinstance(n, ast.GeneratorExp)]
+    es = set()
+    for g in gens:
+        if (not isinstance(g.elt, ast.Call) or ast.unparse(g.elt.func) != "ocs.transform_2d_vertex" or ast.unparse(g.elt.args[0]) != "v"
+                or ast.unparse(g.generators[0].iter) not in ("self.control_points", "self.fit_points")):
+            raise Unsupported("SplineEdge.transform changed its shape")
+        es.add(lean_of(g.elt.args[1], "SplineEdge.transform"))
+    if len(gens) != 2 or len(es) != 1:
+        raise Unsupported("SplineEdge.transform changed its shape (control / fit points)")
+    out["hatchSplinePointElev"] = ("SplineEdge.transform: elevation of control and fit points", es.pop())
+    ts = [n for n in ast.walk(st) if isinstance(n, ast.Assign) and ast.unparse(n.targets[0]) == "t"]
+    zs = set()
+    for n in ts:
+        txt = ast.unparse(n.value)
+        if txt in ("Vec3(self.start_tangent)", "Vec3(self.end_tangent)"):
+            zs.add("0")
+        elif isinstance(n.value, ast.Call) and ast.unparse(n.value.func) in ("Vec3(self.start_tangent).replace", "Vec3(self.end_tangent).replace") \
+                and len(n.value.keywords) == 1 and n.value.keywords[0].arg == "z":
+            zs.add(lean_of(n.value.keywords[0].value, "SplineEdge.transform tangent"))
+        else:
+            raise Unsupported("SplineEdge.transform changed its shape (tangents)")
+    uses = [ast.unparse(n) for n in ast.walk(st) if isinstance(n, ast.Assign) and ast.unparse(n.targets[0]) in ("self.start_tangent", "self.end_tangent")]
+    if len(ts) != 2 or len(zs) != 1 or sorted(uses) != ["self.end_tangent = ocs.transform_direction(t).vec2", "self.start_tangent = ocs.transform_direction(t).vec2"]:
+        raise Unsupported("SplineEdge.transform changed its shape (tangents)")
+    out["hatchSplineTangentZ"] = ("SplineEdge.transform: z given to a tangent DIRECTION before transform_direction", zs.pop())
+    # EllipseEdge.transform
+    et = method(bp, "EllipseEdge", "transform")
+    cen = [n for n in ast.walk(et) if isinstance(n, ast.Assign) and ast.unparse(n.targets[0]) == "e.center"]
+    back = [ast.unparse(n) for n in ast.walk(et) if isinstance(n, ast.Assign) and ast.unparse(n.targets[0]) == "self.center"]
+    flow = [ast.unparse(n) for n in et.body if isinstance(n, (ast.Assign, ast.Expr))]
+    if (len(cen) != 1 or not isinstance(cen[0].value, ast.Call) or ast.unparse(cen[0].value.func) != "ocs_to_wcs"
+            or not isinstance(cen[0].value.args[0], ast.Call) or ast.unparse(cen[0].value.args[0].func) != "e.center.replace"
+            or [k.arg for k in cen[0].value.args[0].keywords] != ["z"] or back != ["self.center = wcs_to_ocs(e.center).vec2"]
+            or "ocs_to_wcs = ocs.old_ocs.to_wcs" not in flow or "wcs_to_ocs = ocs.new_ocs.from_wcs" not in flow or "e.transform(ocs.m)" not in flow):
+        raise Unsupported("EllipseEdge.transform changed its shape")
+    out["hatchEllipseCenterElev"] = ("EllipseEdge.transform: z of the centre lifted to WCS", lean_of(cen[0].value.args[0].keywords[0].value, "EllipseEdge.transform"))
+    text = ""
+    for name, (doc, body) in out.items():
+        text += f"/-- extracted from the AST of {doc} -/\ndef {name} (elevation : Rat) : Rat := {body}\n\n"
+    return [line], text
+
+
+ELLIPSE = "src/ezdxf/math/ellipse.py"
+RYTZ = "#c12-rytz"
+
+
+def rytz_defs(read):
+    """`rytz_axis_construction(d1, d2)` translated by py2lean (both branches: vectors in the xy-plane / general 3-D position);
+    `raise ArithmeticError(...)` is mapped to ValueError (the error enum of the translator has no ArithmeticError)"""
+    from translate.py2lean import Program, translate, Unsupported
+
+    def rd(rel):
+        if rel.endswith(RYTZ):
+            src = read(rel[: -len(RYTZ)])
+            msg = 'raise ArithmeticError("Conjugated axis required, invalid source data.")'
+            if src.count(msg) != 2:
+                raise Unsupported("rytz_axis_construction: the two ArithmeticError exits changed")
+            return src.replace(msg, "raise ValueError()")
+        return read(rel)
+
+    prog = Program(rd)
+    prog.link("ezdxf.math", KSRC)
+    return [translate(prog, ELLIPSE + RYTZ, "rytz_axis_construction", [("d1", "v3"), ("d2", "v3")], lean_name="rytz", max_paths=512),
+            # minor_axis(major_axis, extrusion, ratio): the second conjugate half-diameter every ELLIPSE / ellipse edge is built from
+            translate(prog, ELLIPSE, "minor_axis", [("major_axis", "v3", "mj"), ("extrusion", "v3", "ext"), ("ratio", "rat")], lean_name="minorAxis")]
+
+
+MLINE = "src/ezdxf/entities/mline.py"
+MLS = "#c12-mline-scale"
+
+
+def _split_mline_scale(src: str) -> str:
+    """MLine.transform(m): the statements between `scale = self.dxf.scale_factor` and `self.update_geometry()` (the computation of
+    the new scale factor) are moved, unchanged, into a function `c12_mline_scale(scale0, m)`; reads of `self.dxf.scale_factor`
+    become the parameter, the assignment to it becomes the result.  Any other shape is refused."""
+    import ast
+    from translate.py2lean import Unsupported
+    tree = ast.parse(src)
+    for c in tree.body:
+        if isinstance(c, ast.ClassDef) and c.name == "MLine":
+            for n in c.body:
+                if isinstance(n, ast.FunctionDef) and n.name == "transform":
+                    texts = [ast.unparse(st) for st in n.body]
+                    if "scale = self.dxf.scale_factor" not in texts or "self.update_geometry()" not in texts:
+                        raise Unsupported("MLine.transform changed its shape: the model must be revisited")
+                    i, j = texts.index("scale = self.dxf.scale_factor"), texts.index("self.update_geometry()")
+                    head = [t for t in texts[:i] if not t.startswith(("'", '"'))]
+                    if head != ["for vertex in self.vertices:\n    vertex.transform(m)", "self.dxf.extrusion, _ = transform_extrusion(self.dxf.extrusion, m)"]:
+                        raise Unsupported("MLine.transform changed its shape (vertices / extrusion): the model must be revisited")
+
+                    class R(ast.NodeTransformer):
+                        def visit_Attribute(self, node):
+                            if ast.unparse(node) == "self.dxf.scale_factor":
+                                return ast.copy_location(ast.Name(id="scale0", ctx=node.ctx), node)
+                            return self.generic_visit(node)
+
+                    fn = ast.parse("def c12_mline_scale(scale0, m):\n    pass\n").body[0]
+                    fn.body = [R().visit(st) for st in n.body[i:j]] + [ast.parse("return scale0").body[0]]
+                    ast.fix_missing_locations(fn)
+                    return src + "\n\n" + ast.unparse(fn) + "\n"
+    raise Unsupported("MLine.transform not found")
+
+
+def mline_defs(read):
+    from translate.py2lean import Program, translate
+
+    def rd(rel):
+        return _split_mline_scale(read(rel[: -len(MLS)])) if rel.endswith(MLS) else read(rel)
+
+    prog = Program(rd)
+    prog.link("ezdxf.math", KSRC)
+    prog.link("ezdxf.math.transformtools", [TT])
+    return [translate(prog, MLINE + MLS, "c12_mline_scale", [("scale0", "rat"), ("m", "m44")], lean_name="mlineScale")]
+
+
+DIMENSION = "src/ezdxf/entities/dimension.py"
+
+
+def dimension_tables(read) -> str:
+    """Dimension.transform: which attributes go through ocs.transform_vertex / ocs.transform_deg_angle / m.transform, read from
+    the three `for name in (...): transform_if_exist(name, func)` loops of the source (any other shape is refused)"""
+    import ast
+    from translate.py2lean import Unsupported
+    tree = ast.parse(read(DIMENSION))
+    fn = None
+    for c in tree.body:
+        if isinstance(c, ast.ClassDef) and c.name == "Dimension":
+            for n in c.body:
+                if isinstance(n, ast.FunctionDef) and n.name == "transform":
+                    fn = n
+    if fn is None:
+        raise Unsupported("Dimension.transform not found")
+    tables = {}
+    for st in fn.body:
+        if isinstance(st, ast.For):
+            if (not isinstance(st.iter, ast.Tuple) or len(st.body) != 1 or not isinstance(st.body[0], ast.Expr)
+                    or not isinstance(st.body[0].value, ast.Call) or ast.unparse(st.body[0].value.func) != "transform_if_exist"
+                    or ast.unparse(st.body[0].value.args[0]) != ast.unparse(st.target)):
+                raise Unsupported("Dimension.transform: unexpected loop shape")
+            func = ast.unparse(st.body[0].value.args[1])
+            tables.setdefault(func, []).extend(e.value for e in st.iter.elts)
+    if set(tables) != {"ocs.transform_vertex", "ocs.transform_deg_angle", "m.transform"}:
+        raise Unsupported(f"Dimension.transform: unexpected transformation functions {sorted(tables)}")
+    body = [ast.unparse(st) for st in fn.body]
+    if "ocs = OCSTransform(self.dxf.extrusion, m)" not in body or "dxf.extrusion = ocs.new_extrusion" not in body:
+        raise Unsupported("Dimension.transform changed its shape")
+    names = {"ocs.transform_vertex": "dimOcsVertexNames", "ocs.transform_deg_angle": "dimAngleNames", "m.transform": "dimWcsVertexNames"}
+    text = ""
+    for func, nm in names.items():
+        lst = ", ".join(json.dumps(x) for x in tables[func])
+        text += f"/-- attributes that Dimension.transform hands to `{func}` (extracted from the AST) -/\ndef {nm} : List String := [{lst}]\n\n"
+    return text
+
+
+WCS_CLASSES = [("IMAGE", "src/ezdxf/entities/image.py", "ImageBase"), ("LEADER", "src/ezdxf/entities/leader.py", "Leader"),
+               ("HELIX", "src/ezdxf/entities/helix.py", "Helix"), ("TOLERANCE", "src/ezdxf/entities/tolerance.py", "Tolerance"),
+               ("LIGHT", "src/ezdxf/entities/light.py", "Light"), ("XLINE", "src/ezdxf/entities/xline.py", "XLine"),
+               ("MLINEVERTEX", "src/ezdxf/entities/mline.py", "MLineVertex")]
+
+
+def wcs_attr_table(read) -> str:
+    """entities that store WCS points and vectors: for each `transform(self, m)` the list (attribute, kind) read from the
+    statements of the method; kinds: point (m.transform), vector (m.transform_direction), unit (… .normalize()), normal
+    (transform_extrusion), points (m.transform_vertices), xlength (length of the image of (value, 0, 0)), super (super().transform)."""
+    import ast
+    from translate.py2lean import Unsupported
+    rows = []
+    for dxftype, path, cls in WCS_CLASSES:
+        tree = ast.parse(read(path))
+        fn = None
+        for c in tree.body:
+            if isinstance(c, ast.ClassDef) and c.name == cls:
+                for n in c.body:
+                    if isinstance(n, ast.FunctionDef) and n.name == "transform":
+                        fn = n
+        if fn is None or [a.arg for a in fn.args.args] != ["self", "m"]:
+            raise Unsupported(f"{cls}.transform(self, m) not found")
+        for st in fn.body:
+            txt = ast.unparse(st)
+            if isinstance(st, ast.Expr) and isinstance(st.value, ast.Constant):
+                continue
+            if txt in ("self.post_transform(m)", "return self"):
+                continue
+            if txt == "super().transform(m)":
+                rows.append((dxftype, "*", "super"))
+                continue
+            if isinstance(st, ast.Assign) and len(st.targets) == 1:
+                tgt, val = ast.unparse(st.targets[0]), ast.unparse(st.value)
+                name = tgt.split(".")[-1]
+                own = tgt if not tgt.startswith("(") else None
+                if tgt in (f"self.dxf.{name}", f"self.{name}"):
+                    kinds = {f"m.transform({tgt})": "point", f"m.transform_direction({tgt})": "vector",
+                             f"m.transform_direction({tgt}).normalize()": "unit", f"list(m.transform_vertices({tgt}))": "points",
+                             f"m.transform_direction(({tgt}, 0, 0)).magnitude": "xlength"}
+                    if val in kinds:
+                        rows.append((dxftype, name, kinds[val]))
+                        continue
+                if isinstance(st.targets[0], ast.Tuple) and len(st.targets[0].elts) == 2 and ast.unparse(st.targets[0].elts[1]) == "_":
+                    t0 = ast.unparse(st.targets[0].elts[0])
+                    if val == f"transform_extrusion({t0}, m)":
+                        rows.append((dxftype, t0.split(".")[-1], "normal"))
+                        continue
+            raise Unsupported(f"{cls}.transform: statement `{txt}` is outside the recognised shapes")
+    body = ",\n   ".join(f"({json.dumps(a)}, {json.dumps(b)}, {json.dumps(c)})" for a, b, c in rows)
+    return ("/-- (DXF type, attribute, kind) for every statement of the `transform(self, m)` methods of the WCS entities (AST) -/\n"
+            f"def wcsAttrTable : List (String × String × String) :=\n  [{body}]\n\n")
+
+
 def regenerate(ctx):
     from translate.py2lean import lean_file
-    defs = kernel_defs(ctx.src)
+    defs = kernel_defs(ctx.src) + rytz_defs(ctx.src) + mline_defs(ctx.src)
     extra = "".join(d.sqrt_wrapper() + "\n" for d in defs if d.sqrt_params)
-    ctx.write_gen("TransformKernels", lean_file("EzdxfVerif.Gen.TransformKernels", defs, extra=extra), [TT] + KSRC)
+    defs += temp_defs(ctx.src)
+    hd, htext = hatch_defs(ctx.src)
+    defs += hd
+    htext += dimension_tables(ctx.src)
+    htext += wcs_attr_table(ctx.src)
+    ctx.write_gen("TransformKernels", lean_file("EzdxfVerif.Gen.TransformKernels", defs, extra=htext + extra),
+                  [TT] + KSRC + [TEMP, BPATH, POLYGON, ELLIPSE, MLINE, DIMENSION] + [p_ for _, p_, _ in WCS_CLASSES if p_ != MLINE])
 
 
 # ================================================================================================ correspondence
@@ -2276,9 +2845,503 @@ def corr_upright(ctx):
     return out
 
 
+def corr_hatch(ctx):
+    """HATCH / MPOLYGON.transform vs Model Hatch.transform given the OCS frames and the uniform flag of the real OCSTransform:
+    new elevation, every stored boundary point, bulges, arc edge radius / angles, spline tangents, ellipse edge centres"""
+    from ezdxf.math import Matrix44, Vec3, arc_angle_span_deg
+    from ezdxf.math.transformtools import OCSTransform
+    r = ctx.rng("corr/hatch")
+    eg, mg = EG(r), MG(r)
+    world = World()
+    out = []
+    S = "X8 HATCH / MPOLYGON boundary paths"
+
+    def pt(v):
+        return frs((v[0], v[1]))
+
+    for _ in range(ctx.n(900, 6000)):
+        rc = eg.hatch("MPOLYGON" if r.random() < 0.2 else "HATCH")
+        n = recipe_extrusion(rc)
+        k = r.random()
+        mr = mg.similarity() if k < 0.35 else mg.affine() if k < 0.7 else mg.plane(n, r.choice(["planesim", "stretch", "shear"]))
+        m = build_matrix(mr)
+        cl = classify(m, n)
+        if cl.get("plane") == "band" or abs(cl["det"]) < 1e-9:
+            continue
+        if world.n > 3000:
+            world = World()
+        e = build(world.layout(), rc)
+        M = Matrix44(mat16(m))
+        ot = OCSTransform(Vec3(e.dxf.extrusion), M)
+        arcs = any((not hasattr(p, "edges") and any(b for _, _, b in p.vertices)) or
+                   (hasattr(p, "edges") and any(type(ed).__name__ == "ArcEdge" for ed in p.edges)) for p in e.paths)
+        if arcs and not ot.scale_uniform:
+            ctx.hist(S, "skipped:arc-to-ellipse-conversion")
+            continue
+
+        def enc():
+            ps = []
+            for p in e.paths:
+                if not hasattr(p, "edges"):
+                    ps.append(";".join(["P", "T" if p.is_closed else "F"] + [frs(v) for v in p.vertices]))
+                    continue
+                es = []
+                for ed in p.edges:
+                    kind = type(ed).__name__
+                    if kind == "LineEdge":
+                        es.append(f"L:{pt(ed.start)}:{pt(ed.end)}")
+                    elif kind == "ArcEdge":
+                        full = math.isclose(arc_angle_span_deg(ed.start_angle, ed.end_angle), 360.0)
+                        es.append(f"A:{pt(ed.center)}:{fr(ed.radius)}:{frs(_cs(ed.start_angle))}:{frs(_cs(ed.end_angle))}:{'T' if full else 'F'}:{'T' if ed.ccw else 'F'}")
+                    elif kind == "SplineEdge":
+                        tn = lambda t: "n" if t is None else pt(t)  # noqa: E731
+                        es.append(f"S:{'_'.join(pt(v) for v in ed.control_points)}:{'_'.join(pt(v) for v in ed.fit_points)}:{tn(ed.start_tangent)}:{tn(ed.end_tangent)}")
+                    else:
+                        es.append(f"C:{pt(ed.center)}")
+                ps.append(";".join(["E"] + es))
+            return "#".join(ps)
+
+        def dec():
+            fs = [[float(v3(e.dxf.elevation)[2])]]
+            for p in e.paths:
+                if not hasattr(p, "edges"):
+                    fs += [tuple(v) for v in p.vertices]
+                    continue
+                for ed in p.edges:
+                    kind = type(ed).__name__
+                    if kind == "LineEdge":
+                        fs += [tuple(ed.start), tuple(ed.end)]
+                    elif kind == "ArcEdge":
+                        fs += [tuple(ed.center), [ed.radius], _cs(ed.start_angle), _cs(ed.end_angle)]
+                    elif kind == "SplineEdge":
+                        fs += [tuple(v) for v in ed.control_points] + [tuple(v) for v in ed.fit_points]
+                        fs += [None if ed.start_tangent is None else tuple(ed.start_tangent), None if ed.end_tangent is None else tuple(ed.end_tangent)]
+                    else:
+                        fs.append(tuple(ed.center))
+            return fs
+
+        req = ["hatch", frs(mat16(m)), ocs_str(ot.old_ocs), ocs_str(ot.new_ocs), "T" if ot.scale_uniform else "F",
+               fr(v3(e.dxf.elevation)[2]), enc()]
+        e.transform(M)
+        val = ok(*dec())
+        ctx.hist(S, f"{rc['t']}:{cl.get('plane')}:{'elev' if 'elevation' in rc['a'] else 'flat'}:{'tilted' if 'extrusion' in rc['a'] else 'z'}")
+        out.append(("|".join(req + [val, "1/100000000"]), "agree", not cl["sim3"] or cl["det"] < 0 or "elevation" in rc["a"]))
+    return out
+
+
+def corr_text(ctx):
+    """TEXT / ATTDEF / ATTRIB (Text.transform, both branches) and MTEXT (MText.transform) vs the model, given the OCS frames and
+    the uniform flag of the real OCSTransform"""
+    from ezdxf.math import Matrix44, Vec3, OCS
+    from ezdxf.math.transformtools import OCSTransform
+    r = ctx.rng("corr/text")
+    eg, mg = EG(r), MG(r)
+    world = World()
+    out = []
+    S = "X9 TEXT / ATTDEF / MTEXT"
+    for k in range(ctx.n(1200, 8000)):
+        kind = r.choice(["TEXT", "TEXT", "ATTDEF", "MTEXT"])
+        rc = eg.mtext() if kind == "MTEXT" else eg.text(kind)
+        n = recipe_extrusion(rc)
+        c = r.random()
+        mr = mg.similarity() if c < 0.35 else mg.affine() if c < 0.7 else mg.plane(n, r.choice(["planesim", "stretch", "shear"]))
+        m = build_matrix(mr)
+        cl = classify(m, n)
+        if cl.get("plane") == "band" or abs(cl["det"]) < 1e-9:
+            continue
+        if world.n > 3000:
+            world = World()
+        e = build(world.layout(), rc)
+        d = e.dxf
+        M = Matrix44(mat16(m))
+        opt = lambda name: fr(d.get(name)) if d.hasattr(name) else "n"  # noqa: E731
+        if kind == "MTEXT":
+            e.convert_rotation_to_text_direction()
+            if not d.hasattr("text_direction"):
+                d.text_direction = (1.0, 0.0, 0.0)
+            ext = vnorm(v3(d.extrusion))
+            d.extrusion = ext
+            req = ["mtext", frs(mat16(m)), ocs_str(OCS(Vec3(ext))), frs(d.insert), frs(d.text_direction), frs(ext), fr(d.char_height), opt("width")]
+            try:
+                e.transform(M)
+                val = ok(d.insert, d.text_direction, d.extrusion, [d.char_height], [d.width] if d.hasattr("width") else None)
+            except ZeroDivisionError:
+                val = "err ZeroDivisionError"
+        else:
+            ot = OCSTransform(Vec3(d.extrusion), M)
+            req = ["text", frs(mat16(m)), ocs_str(ot.old_ocs), ocs_str(ot.new_ocs), "T" if ot.scale_uniform else "F", frs(d.insert),
+                   frs(d.align_point) if d.hasattr("align_point") else "n", frs(_cs(d.rotation)), frs(_cs(d.oblique)), fr(d.height), fr(d.width), opt("thickness")]
+            try:
+                e.transform(M)
+                val = ok(d.insert, d.align_point, _cs(d.rotation), _cs(d.oblique), [d.height], [d.width], [d.thickness] if d.hasattr("thickness") else None)
+            except ZeroDivisionError:
+                val = "err ZeroDivisionError"
+        ctx.hist(S, f"{kind}:{cl.get('plane')}:{'err' if val.startswith('err') else 'ok'}")
+        out.append(("|".join(req + [val, "1/100000000"]), "agree", not cl["sim3"] or cl["det"] < 0 or "extrusion" in rc["a"]))
+    return out
+
+
+def corr_rytz(ctx):
+    """rytz_axis_construction on conjugate half-diameters of ellipses in the xy-plane and in general position (and on arbitrary
+    vector pairs) vs the regenerated kernel evaluated with the driver's sqrt"""
+    from ezdxf.math import Vec3
+    from ezdxf.math.ellipse import rytz_axis_construction
+    r = ctx.rng("corr/rytz")
+    mg = MG(r)
+    out = []
+    S = "X10 rytz_axis_construction / minor_axis"
+    for _ in range(ctx.n(800, 6000)):
+        k = r.random()
+        flat = r.random() < 0.5
+        if k < 0.75:
+            a = r.choice([1.0, 2.0, 2.5, 4.0, 10.0])
+            b = a * r.choice([0.5, 0.25, 0.75, 0.1, 0.9])
+            c, s_ = mg.cs()
+            if abs(c) < 1e-6 or abs(s_) < 1e-6:
+                c, s_ = 0.6, 0.8
+            q, p_ = (a * c, b * s_, 0.0), (-a * s_, b * c, 0.0)
+            if r.random() < 0.5:
+                q, p_ = p_, q
+            rot = build_matrix([mg.R()] if flat and r.random() < 0.0 else ([["R", 0.0, 0.0, 1.0, *mg.cs()]] if flat else [mg.R(), mg.R()]))
+            d1, d2 = m_dir(rot, q), m_dir(rot, p_)
+            if flat:
+                d1, d2 = (d1[0], d1[1], 0.0), (d2[0], d2[1], 0.0)
+            kind = "conjugate"
+        else:
+            d1 = (_dy(r), _dy(r), 0.0 if flat else _dy(r))
+            d2 = (_dy(r), _dy(r), 0.0 if flat else _dy(r))
+            kind = "arbitrary"
+        cr = vcross(d1, d2)
+        if vlen(cr) < 1e-3 * max(1.0, vlen(d1) * vlen(d2)):
+            continue
+        if abs(vdot(d1, d2)) < 1e-6 * vlen(d1) * vlen(d2) and abs(vlen(d1) - vlen(d2)) < 1e-6 * vlen(d1):
+            continue  # a circle: the construction divides by |Q - P'| = 0
+        try:
+            mj, mn, ratio = rytz_axis_construction(Vec3(d1), Vec3(d2))
+            val = ok(mj, mn, [ratio])
+        except ArithmeticError as e:
+            val = "err " + ("ZeroDivisionError" if isinstance(e, ZeroDivisionError) else "ArithmeticError")
+        ctx.hist(S, f"{kind}:{'plane' if flat else 'space'}:{'err' if val.startswith('err') else 'ok'}")
+        out.append(("|".join(["rytz", frs(d1), frs(d2), val, "1/100000000"]), "agree", True))
+        # minor_axis(major, extrusion, ratio) on the same vectors (extrusion = any vector not parallel to the major axis)
+        from ezdxf.math.ellipse import minor_axis
+        ratio_ = r.choice([1.0, 0.5, 0.25, 2.0, 0.8])
+        ext = cr if r.random() < 0.7 else d2
+        try:
+            val = ok(minor_axis(Vec3(d1), Vec3(ext), ratio_))
+        except ZeroDivisionError:
+            val = "err ZeroDivisionError"
+        ctx.hist(S, "minor_axis")
+        out.append(("|".join(["minor", frs(d1), frs(ext), fr(ratio_), val, "1/100000000"]), "agree", True))
+    return out
+
+
+def corr_mline(ctx):
+    """MLine.transform: new scale factor and reference vertices vs the model (regenerated scale kernel)"""
+    from ezdxf.math import Matrix44
+    r = ctx.rng("corr/mline")
+    eg, mg = EG(r), MG(r)
+    world = World()
+    out = []
+    S = "X11 MLINE scale factor and vertices"
+    for _ in range(ctx.n(300, 2500)):
+        rc = eg.mline()
+        k = r.random()
+        mr = mg.similarity() if k < 0.6 else mg.affine()
+        m = build_matrix(mr)
+        cl = classify(m)
+        if abs(cl["det"]) < 1e-9:
+            continue
+        A = m[0]
+        lens = [vlen(a) for a in A]
+        if any(1e-7 < abs(lens[i] - lens[j]) < 1e-5 for i, j in ((0, 1), (1, 2))):
+            ctx.hist(S, "regenerated-in-decision-band")
+            continue
+        if world.n > 3000:
+            world = World()
+        e = build(world.layout(), rc)
+        req = ["mline", frs(mat16(m)), fr(e.dxf.scale_factor), ";".join(frs(v3(v.location)) for v in e.vertices)]
+        e.transform(Matrix44(mat16(m)))
+        val = ok([e.dxf.scale_factor], *[v3(v.location) for v in e.vertices])
+        ctx.hist(S, "similarity" if cl["sim3"] else "affine")
+        out.append(("|".join(req + [val, "1/1000000000"]), "agree", True))
+    return out
+
+
+DIM_PTS = ["defpoint", "defpoint2", "defpoint3", "defpoint4", "defpoint5", "text_midpoint", "insert"]
+DIM_ANGLES = ["text_rotation", "horizontal_direction", "angle"]
+
+
+def corr_dimension(ctx):
+    """Dimension.transform on DIMENSION entities with arbitrary subsets of the definition points / angles and tilted extrusions
+    (no geometry block: the block content is transformed entity by entity by the entities' own transform) vs the model"""
+    from ezdxf.math import Matrix44, Vec3
+    from ezdxf.math.transformtools import OCSTransform
+    r = ctx.rng("corr/dimension")
+    eg, mg = EG(r), MG(r)
+    world = World()
+    out = []
+    S = "X12 DIMENSION definition points and angles"
+    for _ in range(ctx.n(500, 4000)):
+        a = {}
+        n = eg.ext()
+        if n is not None:
+            a["extrusion"] = n
+        for name in DIM_PTS:
+            if r.random() < 0.6 and name != "insert" or r.random() < 0.15:
+                a[name] = eg.p3()
+        for name in DIM_ANGLES:
+            if r.random() < 0.5:
+                a[name] = r.choice([0.0, 30.0, 90.0, 135.0, -45.0, 200.0, 53.13010235415598])
+        nn = tuple(a.get("extrusion", (0.0, 0.0, 1.0)))
+        k = r.random()
+        mr = mg.similarity() if k < 0.4 else mg.affine() if k < 0.7 else mg.plane(nn, r.choice(["planesim", "stretch", "shear"]))
+        m = build_matrix(mr)
+        cl = classify(m, nn)
+        if cl.get("plane") == "band" or abs(cl["det"]) < 1e-9:
+            continue
+        if world.n > 3000:
+            world = World()
+        e = world.layout().new_entity("DIMENSION", _attr(a))
+        d = e.dxf
+        M = Matrix44(mat16(m))
+        ot = OCSTransform(Vec3(d.extrusion), M)
+        names = [nm for nm in DIM_PTS + DIM_ANGLES if d.hasattr(nm)]
+        if not names:
+            continue  # nothing to transform (and the line protocol cannot carry an empty field list)
+        enc = ";".join(f"{nm}=P:{frs(d.get(nm))}" if nm in DIM_PTS else f"{nm}=A:{frs(_cs(d.get(nm)))}" for nm in names)
+        req = ["dim", frs(mat16(m)), ocs_str(ot.old_ocs), ocs_str(ot.new_ocs), enc]
+        e.transform(M)
+        val = ok(*[d.get(nm) if nm in DIM_PTS else _cs(d.get(nm)) for nm in names])
+        ctx.hist(S, f"{cl.get('plane')}:{'tilted' if 'extrusion' in a else 'z'}")
+        out.append(("|".join(req + [val, "1/100000000"]), "agree", bool(names)))
+    return out
+
+
+def corr_polyline2d(ctx):
+    """Polyline.transform (2-D POLYLINE with VERTEX sub-entities: own z per vertex, optional polyline elevation, widths, bulges,
+    NonUniformScalingError) vs the model"""
+    from ezdxf.math import Matrix44, Vec3, NonUniformScalingError
+    from ezdxf.math.transformtools import OCSTransform
+    r = ctx.rng("corr/polyline2d")
+    eg, mg = EG(r), MG(r)
+    world = World()
+    out = []
+    S = "X13 2-D POLYLINE"
+    for _ in range(ctx.n(500, 4000)):
+        rc = eg.polyline2d()
+        n = recipe_extrusion(rc)
+        k = r.random()
+        mr = mg.similarity() if k < 0.45 else mg.affine() if k < 0.7 else mg.plane(n, r.choice(["planesim", "stretch", "shear"]))
+        m = build_matrix(mr)
+        cl = classify(m, n)
+        if cl.get("plane") == "band" or abs(cl["det"]) < 1e-9:
+            continue
+        if world.n > 3000:
+            world = World()
+        e = build(world.layout(), rc)
+        d = e.dxf
+        if r.random() < 0.3:  # vertices with their own z (no polyline elevation): older files
+            d.discard("elevation")
+            z = r.choice([0.0, 1.5, -2.0])
+            for v in e.vertices:
+                v.dxf.location = Vec3(v.dxf.location).replace(z=z)
+        M = Matrix44(mat16(m))
+        ot = OCSTransform(Vec3(d.extrusion), M)
+        optv = lambda v, name: fr(v.dxf.get(name)) if v.dxf.hasattr(name) else "n"  # noqa: E731
+        verts = ";".join(f"{frs(v3(v.dxf.location))},{fr(v.dxf.get('bulge', 0.0))}:{optv(v, 'start_width')}:{optv(v, 'end_width')}" for v in e.vertices)
+        req = ["pl2d", frs(mat16(m)), ocs_str(ot.old_ocs), ocs_str(ot.new_ocs), "T" if ot.scale_uniform else "F",
+               fr(v3(d.elevation)[2]) if d.hasattr("elevation") else "n", fr(d.thickness) if d.hasattr("thickness") else "n", verts]
+        try:
+            e.transform(M)
+            fs = [[v3(d.elevation)[2]] if d.hasattr("elevation") else None, [d.thickness] if d.hasattr("thickness") else None]
+            for v in e.vertices:
+                fs += [list(v3(v.dxf.location)) + [v.dxf.get("bulge", 0.0)], [v.dxf.start_width] if v.dxf.hasattr("start_width") else None,
+                       [v.dxf.end_width] if v.dxf.hasattr("end_width") else None]
+            val = ok(*fs)
+        except NonUniformScalingError:
+            val = "err NonUniformScalingError"
+        ctx.hist(S, f"{cl.get('plane')}:{'err' if val.startswith('err') else 'ok'}:{'elev' if 'elevation' in rc['a'] else 'own-z'}")
+        out.append(("|".join(req + [val, "1/100000000"]), "agree", not cl["sim3"] or cl["det"] < 0 or "extrusion" in rc["a"]))
+    return out
+
+
+def corr_ellipse(ctx):
+    """ConstructionEllipse.transform (full ellipses: centre, major / minor axis, extrusion, ratio after the transformation, both
+    branches and the ratio > 1 exchange) vs Model Ell.transform over the regenerated rytz / minor_axis kernels"""
+    from ezdxf.math import Matrix44, Vec3, ConstructionEllipse
+    r = ctx.rng("corr/ellipse")
+    eg, mg = EG(r), MG(r)
+    out = []
+    S = "X14 ConstructionEllipse.transform (axes)"
+    for _ in range(ctx.n(700, 5000)):
+        rc = eg.ellipse()
+        a = rc["a"]
+        n = tuple(a["extrusion"])
+        k = r.random()
+        mr = mg.similarity() if k < 0.3 else mg.affine() if k < 0.7 else mg.plane(n, r.choice(["planesim", "stretch", "shear"]))
+        m = build_matrix(mr)
+        if abs(m_det(m)) < 1e-9:
+            continue
+        ce = ConstructionEllipse(Vec3(a["center"]), Vec3(a["major_axis"]), Vec3(n), a["ratio"])
+        mj_, mn_ = m_dir(m, v3(ce.major_axis)), m_dir(m, v3(ce.minor_axis))
+        cosv = abs(vdot(vnorm(mj_), vnorm(mn_)))
+        ratio_ = vlen(mn_) / vlen(mj_)
+        if 1e-7 < cosv < 1e-5 or (cosv <= 1e-7 and abs(ratio_ - 1.0) < 1e-6) or (cosv > 1e-5 and a["ratio"] == 1.0 and cosv < 1e-3):
+            ctx.hist(S, "regenerated-in-decision-band")
+            continue
+        req = ["ell", frs(mat16(m)), frs(a["center"]), frs(a["major_axis"]), frs(n), fr(a["ratio"])]
+        try:
+            ce.transform(Matrix44(mat16(m)))
+            val = ok(ce.center, ce.major_axis, ce.minor_axis, ce.extrusion, [ce.ratio])
+            if abs(ce.ratio - 1.0) < 1e-6:
+                ctx.hist(S, "regenerated-in-decision-band")
+                continue
+        except ArithmeticError as x:
+            val = "err " + ("ZeroDivisionError" if isinstance(x, ZeroDivisionError) else "ArithmeticError")
+        ctx.hist(S, f"{'rytz' if cosv > 1e-6 else 'orthogonal'}:{'err' if val.startswith('err') else 'ok'}")
+        out.append(("|".join(req + [val, "1/10000000"]), "agree", True))
+    return out
+
+
+def corr_ellipse_edge(ctx):
+    """HATCH EllipseEdge.transform (and ArcEdge after arc_edges_to_ellipse_edges): centre, major axis, ratio in the new OCS vs the
+    model (Ell.transform between the two OCS)"""
+    from ezdxf.math import Matrix44, Vec3
+    from ezdxf.math.transformtools import OCSTransform
+    r = ctx.rng("corr/ellipse-edge")
+    eg, mg = EG(r), MG(r)
+    world = World()
+    out = []
+    S = "X15 HATCH ellipse edge axes"
+    for _ in range(ctx.n(500, 4000)):
+        n = eg.ext() or [0.0, 0.0, 1.0]
+        a = {"extrusion": n}
+        if r.random() < 0.6:
+            a["elevation"] = [0.0, 0.0, r.choice([1.0, -2.0, 5.0])]
+        arc = r.random() < 0.3
+        if arc:
+            edge = ["arc", eg.p2(), r.choice([1.0, 2.5]), 0.0, 360.0, True]
+        else:
+            edge = ["ellipse", eg.p2(), r.choice([[2.0, 0.0], [1.5, 2.0], [0.0, 3.0], [-1.0, 1.0]]), r.choice([0.5, 0.25, 0.8]), 0.0, 360.0, True]
+        rc = {"t": "HATCH", "a": a, "paths": [{"k": "edge", "edges": [edge]}]}
+        k = r.random()
+        mr = mg.affine() if k < 0.5 else mg.plane(tuple(n), r.choice(["stretch", "shear"])) if k < 0.8 else mg.similarity()
+        m = build_matrix(mr)
+        cl = classify(m, tuple(n))
+        if cl.get("plane") == "band" or abs(cl["det"]) < 1e-9:
+            continue
+        if world.n > 3000:
+            world = World()
+        e = build(world.layout(), rc)
+        M = Matrix44(mat16(m))
+        ot = OCSTransform(Vec3(e.dxf.extrusion), M)
+        if arc and ot.scale_uniform:
+            continue  # stays an arc edge (covered by X8)
+        ed = e.paths[0].edges[0]
+        center = tuple(ed.center)
+        major = (ed.radius, 0.0) if arc else tuple(ed.major_axis)
+        ratio = 1.0 if arc else ed.ratio
+        # decision bands of ConstructionEllipse.transform: |cos| around 1e-6, ratio around 1
+        fr_ = ocs_axes(tuple(n))
+        mjw = m_dir(m, to_wcs(fr_, (major[0], major[1], 0.0)))
+        mnw = m_dir(m, to_wcs(fr_, (-major[1] * ratio, major[0] * ratio, 0.0)))
+        cosv = abs(vdot(vnorm(mjw), vnorm(mnw)))
+        if 1e-7 < cosv < 1e-5 or (cosv <= 1e-7 and abs(vlen(mnw) / vlen(mjw) - 1.0) < 1e-6):
+            ctx.hist(S, "regenerated-in-decision-band")
+            continue
+        req = ["elledge", frs(mat16(m)), ocs_str(ot.old_ocs), ocs_str(ot.new_ocs), fr(v3(e.dxf.elevation)[2]), frs(center), frs(major), fr(ratio)]
+        try:
+            e.transform(M)
+            ed = e.paths[0].edges[0]
+            if abs(ed.ratio - 1.0) < 1e-6:
+                ctx.hist(S, "regenerated-in-decision-band")
+                continue
+            val = ok(tuple(ed.center), tuple(ed.major_axis), [ed.ratio])
+        except ArithmeticError as x:
+            val = "err " + ("ZeroDivisionError" if isinstance(x, ZeroDivisionError) else "ArithmeticError")
+        ctx.hist(S, f"{'arc' if arc else 'ellipse'}:{'rytz' if cosv > 1e-6 else 'orthogonal'}:{'elev' if 'elevation' in a else 'flat'}")
+        out.append(("|".join(req + [val, "1/10000000"]), "agree", True))
+    return out
+
+
+def corr_minsert(ctx):
+    """MINSERT: row / column spacing after Insert.transform vs the model's formula on the real old / new scale factors"""
+    from ezdxf.math import Matrix44
+    from ezdxf.math.transformtools import InsertTransformationError
+    r = ctx.rng("corr/minsert")
+    eg, mg = EG(r), MG(r)
+    world = World()
+    out = []
+    S = "X16 MINSERT spacing"
+    for _ in range(ctx.n(300, 2500)):
+        rc = eg.insert("LEAF", grid=True)
+        a = rc["a"]
+        if r.random() < 0.1:
+            a["xscale"] = 0.0
+        n = recipe_extrusion(rc)
+        k = r.random()
+        mr = mg.similarity() if k < 0.6 else mg.plane(n, "planesim") if k < 0.8 else mg.affine()
+        m = build_matrix(mr)
+        if abs(m_det(m)) < 1e-9:
+            continue
+        if world.n > 3000:
+            world = World()
+        e = build(world.layout(), rc)
+        d = e.dxf
+        sc = (d.xscale, d.yscale, d.zscale)
+        cs_, rs_ = d.column_spacing, d.row_spacing
+        try:
+            e.transform(Matrix44(mat16(m)))
+        except (InsertTransformationError, ZeroDivisionError):
+            ctx.hist(S, "not representable")
+            continue
+        req = ["mins", frs(sc), frs((d.xscale, d.yscale, d.zscale)), fr(cs_), fr(rs_)]
+        ctx.hist(S, "ok" if sc[0] else "xscale 0")
+        out.append(("|".join(req + [ok([d.column_spacing], [d.row_spacing]), "1/1000000000"]), "agree", True))
+    return out
+
+
+def corr_temp(ctx):
+    """histories of transform() calls on ACIS entities: the pending matrix of the real entity vs the model's fold"""
+    from ezdxf.math import Matrix44
+    r = ctx.rng("corr/temp")
+    mg = MG(r)
+    world = World()
+    out = []
+    for k in range(ctx.n(400, 3000)):
+        t = r.choice(ACIS_TYPES)
+        e = world.layout().new_entity(t, {})
+        n = r.choice([0, 1, 2, 2, 3, 3, 4])
+        ms = []
+        for _ in range(n):
+            m16 = _dyadic_affine(r) if r.random() < 0.5 else mat16(build_matrix(mg.affine() if r.random() < 0.5 else mg.similarity()))
+            ms.append(m16)
+            if k % 3 == 2 and ms:
+                import ezdxf.transform as xt
+                xt.inplace([e], Matrix44(m16))
+            else:
+                e.transform(Matrix44(m16))
+        if k % 5 == 4:
+            e = e.copy()  # a copy carries the pending matrix of its source
+        tm = e.temporary_transformation().get_matrix()
+        val = ok(None) if tm is None else ok(list(tm))
+        ctx.hist("X7 pending transformation of ACIS entities", f"{n} steps")
+        out.append(("|".join(["temp", ";".join(frs(m) for m in ms), val, "1/1000000000"]), "agree", n > 1))
+        if world.n > 3000:
+            world = World()
+    return out
+
+
 def correspond(ctx):
     for stream, fn in (("X1 OCSTransform kernels", corr_kernels), ("X2 transform_extrusion", corr_extrusion),
                        ("X3 entity transform control flow", corr_entities),
                        ("X4 InsertCoordinateSystem.transform / Insert.matrix44", corr_insert),
-                       ("X5 nested references", corr_nested), ("X6 upright", corr_upright)):
+                       ("X5 nested references", corr_nested), ("X6 upright", corr_upright),
+                       ("X7 pending transformation of ACIS entities", corr_temp),
+                       ("X8 HATCH / MPOLYGON boundary paths", corr_hatch), ("X9 TEXT / ATTDEF / MTEXT", corr_text),
+                       ("X10 rytz_axis_construction / minor_axis", corr_rytz), ("X11 MLINE scale factor and vertices", corr_mline),
+                       ("X12 DIMENSION definition points and angles", corr_dimension), ("X13 2-D POLYLINE", corr_polyline2d),
+                       ("X14 ConstructionEllipse.transform (axes)", corr_ellipse), ("X15 HATCH ellipse edge axes", corr_ellipse_edge),
+                       ("X16 MINSERT spacing", corr_minsert)):
         ctx.correspond(stream, "C12", fn(ctx), build=DRIVER_DEPS)
